@@ -146,7 +146,11 @@ def step (env : Env) (M : Option Mounts) (memo : Memo) (op : Json) : R (Json × 
     let level ← asNat (← field op "level")
     let target ← asOptComps (← field op "target")
     let sp := findModuleSpecFast env name
-    let entered : Option Path := sp.bind fun s => if star then importOriginAbs m s else specAbs m s
+    -- since 58a9012 both enter the origin as located; `before58a9012` asks for the old star rule
+    let old := match op.getObjVal? "before58a9012" with
+      | .ok (Json.bool b) => b
+      | _ => false
+    let entered : Option Path := sp.bind fun s => if star && old then importOriginAbs m s else specAbs m s
     let ownInit : Bool := match sp with
       | some { origin := some (.file _ rel), .. } => rel.getLast? == some initPy
       | _ => false
@@ -258,7 +262,11 @@ def handleWalk (payload : Json) : R Json := do
                     phys := (← parsePhys payload) }
   let tgt ← parseFile (← field payload "target")
   let fuel ← asNat (← field payload "fuel")
-  let out := run P fuel tgt
+  -- `before58a9012`: the star-expansion enters the fully resolved path (the rule the fix replaced)
+  let old := match payload.getObjVal? "before58a9012" with
+    | .ok (Json.bool b) => b
+    | _ => false
+  let out := if old then runBefore_58a9012 P fuel tgt else run P fuel tgt
   let s := out.st
   let ctxs : List Json := match out with
     | .ok (t, irs) _ =>
